@@ -1110,6 +1110,47 @@ def same_state(job):
     return rec
 
 
+def zpauli(job):
+    lib = L()
+    n, b = job
+    rec = {"op": "zpauli", "n": n, "b": b, "outcome": "raise", "nq": -1, "code": -1, "phase": -1, "exc": ""}
+    try:
+        p = lib.tomography.z_pauli_from_bitstring(n, b)
+        code, phase = impl.qiskit_pauli_code(p)
+        rec.update(outcome="return", nq=int(p.num_qubits), code=code, phase=phase)
+    except Exception as e:
+        rec["exc"] = exc_name(e)
+    return rec
+
+
+def pairidx(job):
+    lib = L()
+    n, i, j = job
+    rec = {"op": "pairidx", "n": n, "i": i, "j": j, "outcome": "raise", "idx": -1, "back": [], "exc": ""}
+    try:
+        idx = lib.linear_index.linear_index_from_n_choose_2(n, i, j)
+        back = lib.linear_index.linear_index_to_n_choose2_to(n, idx)
+        rec.update(outcome="return", idx=int(idx), back=[int(back[0]), int(back[1])])
+    except Exception as e:
+        rec["exc"] = exc_name(e)
+    return rec
+
+
+def repr_groups(job):
+    lib = L()
+    lists = job
+    rec = {"op": "repr", "n": 2, "lists": [list(x) for x in lists], "outcome": "raise", "groups": [], "flat": [], "selfeq": -1, "exc": ""}
+    try:
+        li = lib.linear_index
+        r = li.Repr([list(x) for x in lists]) if lists else li.Repr()
+        r2 = li.Repr([li.NTuple(list(x)) for x in lists]) if lists else li.Repr(None)
+        rec.update(outcome="return", groups=[[[int(v) for v in t.data] for t in g] for g in r.groups], flat=[int(v) for v in r.flatten()],
+                   selfeq=1 if (r == r2 and all(len(t) == len(t.data) and [t[k] for k in range(len(t))] == sorted(t.data) for g in r.groups for t in g)) else 0)
+    except Exception as e:
+        rec["exc"] = exc_name(e)
+    return rec
+
+
 def parse_text(job):
     lib = L()
     n, text, expected, wellformed = job
